@@ -13,7 +13,7 @@ def decl(file, header, attrs=None, rewrites=None, container=None):
 
 
 # one operation pattern inside a slice pattern: `Op::X`, `Op::X { .. }`
-PAT = r'Op::\w+(?:\s*\{[^{}]*\})?'
+PAT = r'(?:_|Op::\w+(?:\s*\{[^{}]*\})?)'
 
 
 def display_fmt(ty, spec, facts):
@@ -79,8 +79,8 @@ SER_REWRITES = [
     # R1: lemma hint for TJ (statement position, in front of the closing `] TJ`)
     {'rule': 'R1', 'regex': r'(writeln!\(f, "\] TJ"\))', 'count': '*',
      'replace': r'proof { if f.st().arr is Some { lemma_tj(f.st().arr->Some_0, array@); } } \1'},
-    # R4: unimplemented!() must be unreachable
-    {'rule': 'R4', 'regex': r'unimplemented!\(\)', 'count': '*', 'replace': 'verif_panic("unimplemented")'},
+    # R4: the crate's own `unimplemented!()` (pdf/src/error.rs) is `bail!("Unimplemented @ file:line")`: an Err, not a panic
+    {'rule': 'R4', 'regex': r'unimplemented!\(\)', 'count': '*', 'replace': 'bail!("Unimplemented")'},
 ]
 
 INNER_ARGS_INV = [
@@ -96,7 +96,7 @@ INNER_TJ_INV = [
 UNIT = {
  'name': 'serops',
  'doc': 'serialize_ops (look-ahead merging writer) reads back, under the operator table of units/ops, as the sequence it was given',
- 'rlimit': 80, 'timeout': 1500,
+ 'rlimit': 50, 'timeout': 2400,
  'deviations': {},
  'allowed_assumes': [],
  'items': {
